@@ -77,6 +77,9 @@ func checkC01(c *Ctx) {
 		if !c.Quick() {
 			o.Blocks = 40
 		}
+		if i%2 == 0 {
+			o.Mempool = 500 // the primary also serves mempool checks, the twins see the blocks only
+		}
 		hr := runHistory(c, i, c.Rng("hist-C01", i), o)
 		hr.Report("C01")
 		prims[i] = &prim{hr, o}
